@@ -301,7 +301,12 @@ def main(fd, verbose=0):
                     if verbose:
                         util.debug(f"[ResourceTracker] unlink {name}")
                 except Exception as e:
-                    warnings.warn(f"resource_tracker: {name}: {e!r}")
+                    try:
+                        warnings.warn(f"resource_tracker: {name}: {e!r}")
+                    except Exception:
+                        # (warnings turned into errors, inherited from the
+                        # parent's interpreter flags: go on with the others)
+                        pass
 
         for rtype, rtype_registry in registry.items():
             if rtype == "folder":
